@@ -373,3 +373,116 @@ func (e *Engine) handWritten(fname, genFile string) bool {
 	p := e.fset.Position(fn.Pos())
 	return !strings.HasSuffix(p.Filename, "/"+genFile)
 }
+
+// canonObligations: the type switch of rawSignatureData lower-cases exactly the RDATA domain names RFC 4034
+// section 6.2 (as amended by RFC 6840 5.1) lists: for every schema type with [canon] fields there is a case
+// `case *T:` whose body is exactly `x.F = CanonicalName(x.F)` for those fields, and no other type is touched.
+// RRSIG itself is exempt (an RRSIG RRset is never signed); SIG embeds RRSIG and is listed.
+func (e *Engine) canonObligations() []*Obligation {
+	fname := "rawSignatureData"
+	mk := func(label, src string, r layoutResult, st *SchemaType) *Obligation {
+		ob := &Obligation{Fn: fname, Name: fname + "#canon." + label, Kind: "layout", Solver: "structural matcher (syntax tree of the current source)", Src: src}
+		ob.Clause = &Clause{Label: "canon." + label, Src: src}
+		if st != nil {
+			ob.Clause.File, ob.Clause.Line = st.File, st.Line
+		}
+		if r.ok {
+			ob.Status = "proved"
+		} else {
+			ob.Status = "failed"
+			ob.Output = r.msg
+			ob.Src += " -- " + r.msg
+		}
+		if fn := e.funcs[fname]; fn != nil {
+			ob.Pos = fn.Pos()
+		}
+		return ob
+	}
+	fd, ok := e.funcBody(fname)
+	if !ok {
+		return []*Obligation{mk("switch", "rawSignatureData canonical RDATA names", layoutResult{false, "function not found"}, nil)}
+	}
+	var sw *ast.TypeSwitchStmt
+	ast.Inspect(fd.Body, func(n ast.Node) bool {
+		if s, ok := n.(*ast.TypeSwitchStmt); ok && sw == nil {
+			sw = s
+		}
+		return true
+	})
+	if sw == nil {
+		return []*Obligation{mk("switch", "rawSignatureData canonical RDATA names", layoutResult{false, "no type switch found"}, nil)}
+	}
+	// the switch must be over the copied record and bind a variable
+	bind := ""
+	if as, ok := sw.Assign.(*ast.AssignStmt); ok && len(as.Lhs) == 1 {
+		bind = e.stmtText(as.Lhs[0])
+	}
+	cases := map[string][]string{}
+	var out []*Obligation
+	for _, c := range sw.Body.List {
+		cc := c.(*ast.CaseClause)
+		if len(cc.List) != 1 {
+			if len(cc.List) == 0 && len(cc.Body) == 0 {
+				continue
+			}
+			out = append(out, mk("shape", "rawSignatureData canonical RDATA names", layoutResult{false, "case clause with several types or a default body: " + e.stmtText(cc)}, nil))
+			continue
+		}
+		tn := strings.TrimPrefix(e.stmtText(cc.List[0]), "*")
+		var stmts []string
+		for _, s := range cc.Body {
+			stmts = append(stmts, e.stmtText(s))
+		}
+		cases[tn] = stmts
+	}
+	var names []string
+	for n := range e.cs.Schema {
+		names = append(names, n)
+	}
+	sortStrings(names)
+	seen := map[string]bool{}
+	for _, n := range names {
+		if n == "RRSIG" {
+			continue
+		}
+		st := e.cs.Schema[n]
+		fields, _ := e.cs.schemaFields(n)
+		if st.Alias != "" && st.Alias != "RRSIG" {
+			// embedding types other than SIG are not in the RFC list (NXT is obsolete and embeds NSEC, whose
+			// next name RFC 6840 5.1 says must not be lower-cased)
+			if _, has := cases[n]; has {
+				out = append(out, mk(n, "schema "+n+" (no canonical names)", layoutResult{false, "type is lower-cased but carries no RFC 4034 6.2 name"}, st))
+				seen[n] = true
+			}
+			continue
+		}
+		var want []string
+		for _, sf := range fields {
+			if sf.hasFlag("canon") {
+				want = append(want, norm(fmt.Sprintf("%s.%s = CanonicalName(%s.%s)", bind, sf.GoFields[0], bind, sf.GoFields[0])))
+			}
+		}
+		got, has := cases[n]
+		seen[n] = true
+		if len(want) == 0 {
+			if has {
+				out = append(out, mk(n, "schema "+n+": "+schemaText(fields), layoutResult{false, "type is lower-cased but carries no RFC 4034 6.2 name"}, st))
+			}
+			continue
+		}
+		r := layoutResult{true, ""}
+		switch {
+		case !has:
+			r = layoutResult{false, "no case for *" + n + ": its RDATA names are not lower-cased"}
+		case strings.Join(got, "; ") != strings.Join(want, "; "):
+			r = layoutResult{false, fmt.Sprintf("case body is `%s`, RFC 4034 6.2 requires `%s`", strings.Join(got, "; "), strings.Join(want, "; "))}
+		}
+		out = append(out, mk(n, "schema "+n+": "+schemaText(fields), r, st))
+	}
+	for tn := range cases {
+		if !seen[tn] {
+			out = append(out, mk(tn, "rawSignatureData case *"+tn, layoutResult{false, "type without a schema is lower-cased"}, nil))
+		}
+	}
+	return out
+}
